@@ -39,7 +39,7 @@ func (P) Engine() string { return "E1" }
 func (P) Describe() harness.Description {
 	return harness.Description{
 		MustHit: []string{"request_without_selected_argument", "capacity_exceeded", "throttled_request_waited"},
-		Level: "exploration",
+		Level:   "exploration",
 		Rule: "case = (one hotspot QPS rule: reject or throttling, value selected by index / negative index / attachment key, threshold 0-6, burst 0-3, duration 1-5 s, max queueing 0-3000 ms, specific-item table, parameter capacity default or 1-3; 30-150 requests over a value alphabet of 8 typed values with batches 1-4 and ticks biased to the duration and the pacing interval; Sleep captured at the clock seam). " +
 			"Per (rule,value) while the capacity was never exceeded: reject mode - admitted tokens <= (T+burst)+T*elapsed/D since first seen, <= 2(T+burst) in any window of length D, a value idle for more than D is granted any batch <= T; throttling - consecutive pass times >= floor(b*D/T) ms apart, every requested wait < max queueing time; T_v <= 0 => always rejected; requests without the selected argument are never limited; " +
 			"independence: every decision (and wait) equals that of a shadow resource with the same rule that only ever receives this value, at the same virtual times. With the capacity exceeded only termination and absence of panics are asserted. non-trivial = at least two values were each both admitted and rejected; distinct = hash(config, ops)",
